@@ -1053,7 +1053,7 @@ fn c11_monitor(op: &str, own: u16, trace: &[Message<'static>], script: &[Reply],
         }
     }
     let kind = &op[..3];
-    let kind = if kind == "SNP" || kind == "SNW" { "SND" } else { kind };
+    let kind = if kind == "SNP" || kind == "SNW" || kind == "SNL" { "SND" } else { kind };
     if kind == "CFG" || kind == "CIN" || kind == "SND" {
         let (recv_op, success, failure) = if kind == "SND" {
             (Operation::ReceivePixels, State::PixelsReceived, State::PixelsFailed)
@@ -1382,7 +1382,7 @@ fn gen_c10(ctx: &mut Ctx) {
         let op = match rng.below(7) {
             0 => format!("CFG.{}.{}", own, rng.below(11)),
             1 => format!("CIN.{}.{}", own, rng.below(11)),
-            6 => format!("SNP.{}.{}+{}", own, small_page(3, 8, 8, &mut rng), small_page(4, 20, 8, &mut rng)),
+            6 => format!("{}.{}.{}+{}", if rng.chance(1, 2) { "SNP" } else { "SNL" }, own, small_page(3, 8, 8, &mut rng), small_page(4, 20, 8, &mut rng)),
             2 => format!("SND.{}.{}", own, small_page(rng.byte(), 8, 8, &mut rng)),
             3 => format!("SHW.{}.200", own),
             4 => format!("LNX.{}.200", own),
@@ -1728,7 +1728,7 @@ fn gen_c09(ctx: &mut Ctx) {
             items = vec![SIGN_TYPES[t].to_bytes().to_vec()];
             format!("CFG.{}.{}", own, t)
         } else {
-            format!("{}.{}.{}", if slow_iter { "SNW" } else if k % 8 == 5 { "SNP" } else { "SND" }, own, if pages.is_empty() { "-".to_string() } else { pages.join("+") })
+            format!("{}.{}.{}", if slow_iter { "SNW" } else if k % 8 == 5 { "SNP" } else if k % 8 == 1 { "SNL" } else { "SND" }, own, if pages.is_empty() { "-".to_string() } else { pages.join("+") })
         };
         let fails_override = if slow_iter { Some(0) } else { None };
         if crate::eval::snd_unconstructible(&op) {
